@@ -27,3 +27,6 @@ func zzDBSources(ctx context.Context, pgp *pgxpool.Pool) ([]Source, error) {
 	}
 	return append([]Source(nil), ZZDBSources...), nil
 }
+
+// ZZPendingColumns sets what information_schema answers for the next Diff.
+func ZZPendingColumns(cols []wpg.Column) { zzPending = cols }
